@@ -668,4 +668,36 @@ Proof.
   - rewrite Em in Ema. inversion Ema; subst ma. destruct W as (_ & _ & W). destruct (W T5) as [T5' _]. eauto.
 Qed.
 
+(* ------------------------------------------------------------------------------------------------ *)
+(** * Only the requests answered 200 that are not reads matter                                       *)
+
+Definition effective (s : state) (rs : list request) : list request :=
+  filter (fun r => negb (is_read r)) (applied s rs).
+
+Lemma only_effective_requests_matter : forall (rs : list request) (s0 s : state),
+  Inv s0 -> forallb wf_request rs = true -> run s0 rs = Ok s -> run s0 (effective s0 rs) = Ok s.
+Proof.
+  induction rs as [|r rs IH]; intros s0 s HI Hwf Hrun; simpl in *.
+  - exact Hrun.
+  - apply andb_true_iff in Hwf. destruct Hwf as [Hwr Hwrs].
+    destruct (handle s0 r) as [[resp s1]|] eqn:E; [|discriminate].
+    destruct (handle_spec s0 r HI Hwr) as (resp0 & s10 & E0 & HI1 & Hsame). rewrite E in E0. inversion E0; subst resp0 s10. clear E0.
+    unfold effective. simpl. rewrite E.
+    destruct (Nat.eqb (rs_status resp) 200) eqn:E200.
+    + simpl. destruct (is_read r) eqn:Er; simpl.
+      * destruct (read_keeps_state s0 r HI Er) as [resp1 H1]. rewrite E in H1. inversion H1; subst s1.
+        apply (IH s0 s HI Hwrs Hrun).
+      * rewrite E. apply (IH s1 s HI1 Hwrs Hrun).
+    + simpl. assert (s1 = s0) by (apply Hsame; intro Hc; rewrite Hc in E200; discriminate). subst s1.
+      apply (IH s0 s HI Hwrs Hrun).
+Qed.
+
+(* the one remaining kind of non-write in [effective]: GET /solutions/<label> loads the solution pool (a cache) and
+   touches none of the readable resources *)
+Lemma solution_read_keeps_resources : forall (s : state) label resp s',
+  get_solution s label = Ok (resp, s') -> resources s' = resources s /\ st_model s' = st_model s /\ st_soltable s' = st_soltable s.
+Proof.
+  intros s label resp s' H. unfold get_solution, respond, fail, res_bind in H. break_in H; inv_ok H; simpl; repeat split; congruence.
+Qed.
+
 End C14.
